@@ -284,6 +284,21 @@ static void g_trial(uint64_t i)
     cmb_random_terminate();
 }
 
+/* ---- C18 inside concurrent trials: every trial fills a dataset of its own from its seed and computes autocorrelation coefficients, partial ones,
+ * the median and a sorted copy over and over; the values were computed by the same code in the calling thread before the experiment */
+#define A_LAGS 24
+static double a_ref[MAXTR][2 * A_LAGS + 3]; static _Atomic int a_bad; static char a_msg[200]; static _Atomic uint64_t a_reads;
+static void a_fill(struct cmb_dataset *d, uint64_t seed) { vr_rng g = { seed | 1 }; int n = 120 + (int)(seed % 400); double prev = 0; for (int k = 0; k < n; k++) { double e = vr_unit(&g) - 0.5; prev = 0.7 * prev + e; cmb_dataset_add(d, prev + (double)(seed % 5)); } }
+static void a_read(const struct cmb_dataset *d, double out[2 * A_LAGS + 3]) { cmb_dataset_ACF(d, A_LAGS, out); cmb_dataset_PACF(d, A_LAGS, out + A_LAGS + 1, NULL); out[2 * A_LAGS + 2] = cmb_dataset_median(d); }
+static void a_trial(uint64_t i)
+{
+    struct cmb_dataset d; memset(&d, 0, sizeof d); cmb_dataset_initialize(&d); a_fill(&d, tseed[i]);
+    for (int rep = 0; rep < 60 && !a_bad; rep++) { double v[2 * A_LAGS + 3]; a_read(&d, v); atomic_fetch_add(&a_reads, 1);
+        if (memcmp(v, a_ref[i], sizeof v) != 0 && !atomic_exchange(&a_bad, 1)) { int k = 0; while (k < 2 * A_LAGS + 2 && memcmp(&v[k], &a_ref[i][k], 8) == 0) k++;
+            snprintf(a_msg, sizeof a_msg, "trial %" PRIu64 " computed %s %.12g for its own dataset; alone it is %.12g", i, k <= A_LAGS ? "an autocorrelation coefficient" : k < 2 * A_LAGS + 2 ? "a partial autocorrelation coefficient" : "the median", v[k], a_ref[i][k]); } }
+    cmb_dataset_terminate(&d);
+}
+
 static _Thread_local uint64_t tl_calls; static _Atomic uint64_t n_unpolluted_caches;
 static void pollute(void)
 {
@@ -335,6 +350,7 @@ static void trial_func(void *vp)
     if (q_mode == 2) { w_trial(i); return; }
     if (q_mode == 3) { e_trial(i); return; }
     if (q_mode == 4) { g_trial(i); return; }
+    if (q_mode == 5) { a_trial(i); return; }
     if (err_mode && err_trial[i]) {
         /* a trial that gives up: cmb_logger_error ends "the current replication thread only"; the other trials are the other workers' */
         if (!in_seq) { static FILE *nul; if (!nul) nul = fopen("/dev/null", "w"); if (nul) cmb_logger_error(nul, "trial %d gives up", (int)i); }
@@ -407,6 +423,14 @@ void vr_case(uint64_t seed, uint64_t idx, int profile)
         cimba_run_experiment(arr, ntrials, stride, trial_func);
         if (e_bad) vr_violation("C01/concurrent-trials", "%s", e_msg);
         VR_ADD("event_queue_trials", ntrials); VR_ADD("pattern_sweeps_in_concurrent_trials", e_sweeps); VR_ADD("events_run_in_concurrent_trials", e_events_run); VR_CNT("event_queue_experiments");
+        vr_mark_nontrivial(); free(arr); return;
+    }
+    if (profile == 7) {
+        q_mode = 5; if (ntrials > 200) ntrials = 200;
+        for (uint64_t i = 0; i < ntrials; i++) { struct cmb_dataset d; memset(&d, 0, sizeof d); cmb_dataset_initialize(&d); a_fill(&d, tseed[i]); a_read(&d, a_ref[i]); cmb_dataset_terminate(&d); }
+        cimba_run_experiment(arr, ntrials, stride, trial_func);
+        if (a_bad) vr_violation("C18/concurrent-trials", "%s", a_msg);
+        VR_ADD("correlation_trials", ntrials); VR_ADD("coefficient_sets_computed_in_concurrent_trials", a_reads); VR_CNT("correlation_experiments");
         vr_mark_nontrivial(); free(arr); return;
     }
     if (profile == 5) {
